@@ -7,7 +7,7 @@
    inverse_structured_rotation.  All statements hold for every commutative ring R
    (reals, rationals, integers); a rotated vector is a pair (u, z) standing for
    u / sqrt z, so that (1/sqrt z) * (1/sqrt z) = 1/z is the only fact used about sqrt. *)
-From Coq Require Import ZArith List Bool Ring.
+From Coq Require Import ZArith List Bool Ring Lia.
 From FV Require Import Common.RingVec gen.Gen_walsh_hadamard Model.C18_Model Proofs.C18_Proofs.
 Import ListNotations.
 Local Open Scope Z_scope.
@@ -135,6 +135,14 @@ Proof.
   - eexists. vm_compute. repeat split.
   - exact (C18_involution 0 1 Z.add Z.mul Z.sub Z.opp Zth 3%nat).
 Qed.
+
+(* the hypotheses of the rotation theorems are satisfiable: size 3 (padded 4), size 129 (padded 256) *)
+Example C18_hypotheses_example :
+  let x : list Z := [5; -7; 2] in let s := [true; false; true] in
+  (1 <= length x)%nat /\ Z.log2_up (Z.of_nat (length x)) <= 56 /\ length s = length x /\
+  prodZ [3; 1] = Z.of_nat (length x) /\ rdim 3 = 2%nat /\ rdim 129 = 8%nat /\ Z.log2_up 129 <= 56 /\
+  zinv s (rot_u 0 Z.add Z.sub Z.opp s x) [3; 1] = WOk ([20; -28; 8], 4, [3; 1]).
+Proof. cbv zeta. repeat split; try (vm_compute; reflexivity); try (vm_compute; discriminate); cbn; lia. Qed.
 
 Print Assumptions C18_schedule_product.
 Print Assumptions C18_guard_exact.
